@@ -7,7 +7,7 @@ import GoomVerif.Model.Var
   op, joined by ` ; `: `<outcome>|<var>=<val>,…|<canceled flag of every handle>|<pkgName of builders 0 and 1: 0 = caller's package, p = Pkg(p)>`.
 * `c08.asg <value type> <variable type>` — `Var.assignable` on the type table (tie for the table itself).
 
-Variables are named `<type>` or `<type>2`; values are `nil` or `<type>:<rep>`. -/
+Variables are named `<type>`, `<type>2` or `x<type>` (a variable of another package); values are `nil` or `<type>:<rep>`. -/
 namespace Drv.C08
 open Var
 
@@ -36,6 +36,7 @@ def tyTable : List (String × Ty) := [
   ("err",    ⟨21, .iface, true, 21, [1]⟩),
   ("any",    ⟨22, .iface, false, 22, []⟩),
   ("str",    ⟨23, .iface, true, 23, [2]⟩),
+  ("big",    ⟨26, .strct, true, 26, []⟩),
   ("perr",   ⟨24, .ptr, false, 24, [1]⟩),
   ("verr",   ⟨25, .strct, true, 25, [1, 2]⟩)]
 
@@ -50,7 +51,10 @@ def tyName (t : Ty) : String :=
 def varTy (v : String) : Option Ty :=
   match tyOf v with
   | some t => some t
-  | none => if v.endsWith "2" then tyOf (String.ofList v.toList.dropLast) else none
+  | none =>
+    if v.endsWith "2" then tyOf (String.ofList v.toList.dropLast)
+    else if v.startsWith "x" then tyOf (String.ofList (v.toList.drop 1))     -- `xint`: the variable of the other package
+    else none
 
 def parseVal (s : String) : Option Boxed :=
   if s == "nil" then some none else
@@ -81,7 +85,8 @@ def parseCb (s : String) : Option Cb :=
   | "notfunc" => some .notFunc | "nilfunc" => some .nilFunc | "args" => some .takesArgs
   | "rets0" => some .zeroRets | "rets2" => some .twoRets | "panics" => some .panics
   | _ =>
-    if s.startsWith "ret:" then (parseVal (String.ofList (s.toList.drop 4))).map Cb.ret
+    if s.startsWith "vret:" then (parseVal (String.ofList (s.toList.drop 5))).map Cb.ret
+    else if s.startsWith "ret:" then (parseVal (String.ofList (s.toList.drop 4))).map Cb.ret
     else if s.startsWith "reti:" then (parseVal (String.ofList (s.toList.drop 5))).map Cb.ret
     else none
 
@@ -124,6 +129,11 @@ def opStep (lg : Bool) (d : D) (toks : List String) : Option (D × Outcome) :=
     match b.toNat?, p.toNat? with
     | some b, some p => let (s', o) := step lg d.s (.pkg b p); some ({ d with s := s' }, o)
     | _, _ => none
+  | ["misc", b, _] =>                    -- Struct/Func/Interface/ExportFunc lookup: another cache key; ends with reset2CurPkg
+    match b.toNat? with
+    | some b => let (s', o) := step lg d.s (.pkg b 0); some ({ d with s := s' }, o)
+    | none => none
+  | ["gc"] => some (d, .ok)              -- garbage collection: not a model notion (saved origins are values, always reachable)
   | ["lookbad", k] | ["lookbad", k, _] =>
     (parseBad k).map (fun p => let (s', o) := step lg d.s (.lookBad p); ({ d with s := s' }, o))
   | ["set", h, v] =>
